@@ -9,9 +9,11 @@ the spec-level content of a model object — address TEXTS become the bytes they
 where the Python annotations allow what the CDDL has no rule for.
 
 Result: `registration_conforms_partial` (`toItem x = spec x`, and the item is in the grammar) for every object with
-spec content within the value ranges; `registration_content_defined` shows that the ONLY obstacles are the three
-structural ones, each with a counterexample to the full statement: `relays=None` (the dataclass DEFAULT) is written as
-`null`, a `dns_name=None` is written as `null`, a set `id` is appended as a tenth item. -/
+spec content within the value ranges; `registration_content_defined` shows that the ONLY obstacles for a constructed
+registration are the two structural ones, each with a counterexample to the full statement: a `dns_name=None` is written
+as `null`, a set `id` is appended as a tenth item (both recorded observations: content outside the reference model).
+The third one of the first version — `relays=None`, the dataclass DEFAULT, written as `null` — was repaired in /repo
+(daec0e4: `__post_init__` makes it `[]`); `registration_default_relays_conforms` is the former counterexample as a theorem. -/
 
 namespace Pyc.C02.Pool
 open Pyc Pyc.Cbor Pyc.Codec Pyc.Pool
@@ -66,8 +68,8 @@ theorem registration_conforms_partial (p : PoolParams) (c : Spec.Pool.PoolParams
   refine ⟨hok, ?_, isPoolRegistration_enc c hok⟩
   simp [encRegistration, itemsParams_abs p c ha hr, Spec.Pool.encPoolRegistration]
 
-/-- which objects that is: every well-formed registration within the value ranges whose `relays` is a list, whose relays
-of the name kinds have a name, and whose `id` is unset -/
+/-- which objects that is: every constructed, well-typed registration (`paramsOk`) within the value ranges whose relays of
+the name kinds have a name, and whose `id` is unset -/
 theorem registration_content_defined (p : PoolParams) (hok : paramsOk p = true) (hv : valuesIn p = true)
     (hs : structIn p = true) : ∃ c, absParams p = some c ∧ Spec.Pool.rangesOk c = true :=
   absParams_defined p hok hv hs
@@ -79,9 +81,10 @@ def registration_conforms_goal : Prop :=
 def h28 (x : Nat) : Bytes := List.replicate 28 (UInt8.ofNat x)
 def asc (s : String) : Bytes := s.toList.map fun c => UInt8.ofNat c.toNat
 
-/-- `PoolParams(operator, vrf_keyhash, pledge, cost, margin, reward_account, pool_owners)`: `relays` left at its default -/
+/-- `PoolParams(operator, vrf_keyhash, pledge, cost, margin, reward_account, pool_owners)`: `relays` left at its default —
+the constructed object (`__post_init__`) -/
 def exDefaultRelays : PoolParams :=
-  ⟨h28 1, List.replicate 32 2, 100, 200, ⟨1, 2⟩, 0xe1 :: h28 3, .list [h28 4], Option.none, Option.none, Option.none⟩
+  postInit ⟨h28 1, List.replicate 32 2, 100, 200, ⟨1, 2⟩, 0xe1 :: h28 3, .list [h28 4], Option.none, Option.none, Option.none⟩
 
 /-- a `SingleHostName` without a name -/
 def exNoDns : PoolParams := { exDefaultRelays with relays := some [.name (.int 3001) .none] }
@@ -100,23 +103,41 @@ private theorem not_goal_of (p : PoolParams) (h1 : paramsOk p = true) (h2 : valu
   rw [hc] at h3
   exact absurd h3 (by simp)
 
-/-- … it is FALSE, three ways.  (1) `relays=None`, the DEFAULT of the dataclass, is written as `null` where the CDDL
-requires an array `[* relay]` -/
-theorem registration_conforms_counterexample : ¬ registration_conforms_goal :=
-  not_goal_of exDefaultRelays (by decide +kernel) (by decide +kernel) (by decide +kernel)
+/-- **the constructor call with `relays` omitted or `None` conforms**: for all parameters holding `None` for the relays and no
+`id`, the constructed object (`postInit`), if well typed and within the value ranges, has spec content, is written as
+`[3, …, [], metadata / null]` of that content, and the item is a `pool_registration` (before daec0e4 this was the
+counterexample: `null` in the relays position) -/
+theorem registration_default_relays_conforms (p : PoolParams) (hn : p.relays = Option.none) (hid : p.id = Option.none)
+    (hok : paramsOk (postInit p) = true) (hv : valuesIn (postInit p) = true) :
+    ∃ c, absParams (postInit p) = some c ∧ Spec.Pool.paramsOk c = true ∧
+      encRegistration (postInit p) = some (Spec.Pool.encPoolRegistration c) ∧
+      Spec.Pool.isPoolRegistration (Spec.Pool.encPoolRegistration c) = true := by
+  have hs : structIn (postInit p) = true := by simp [structIn, postInit, hn, hid]
+  obtain ⟨c, hc, hr⟩ := absParams_defined (postInit p) hok hv hs
+  have hw : paramsOkW (postInit p) = true := by
+    simp only [paramsOk, Bool.and_eq_true] at hok
+    exact hok.1
+  exact ⟨c, hc, registration_conforms_partial (postInit p) c hw hc hr⟩
 
-/-- (2) `dns_name=None` (allowed by `Optional[str]`) is written as `null` where the CDDL requires a text -/
+example : paramsOk exDefaultRelays = true ∧ valuesIn exDefaultRelays = true ∧
+    (match encRegistration exDefaultRelays with | some i => Spec.Pool.isPoolRegistration i | Option.none => false) = true := by
+  decide +kernel
+
+-- `registration_conforms_goal` is FALSE, two ways (recorded observations: the Python annotations allow what the CDDL has no
+-- rule for).
+
+/-- (1) `dns_name=None` (allowed by `Optional[str]`) is written as `null` where the CDDL requires a text -/
 theorem registration_conforms_counterexample_dns : ¬ registration_conforms_goal :=
   not_goal_of exNoDns (by decide +kernel) (by decide +kernel) (by decide +kernel)
 
-/-- (3) a set `PoolParams.id` is appended to the certificate as a tenth item; the group `pool_params` has nine -/
+/-- (2) a set `PoolParams.id` is appended to the certificate as a tenth item; the group `pool_params` has nine -/
 theorem registration_conforms_counterexample_id : ¬ registration_conforms_goal :=
   not_goal_of exWithId (by decide +kernel) (by decide +kernel) (by decide +kernel)
 
--- the bytes of the first witness end in `f6 f6`: relays `null`, metadata `null`
-example : ((encRegistration exDefaultRelays).map fun i => (encode i).drop ((encode i).length - 2)) = some [0xf6, 0xf6] := by
+-- the bytes of the default-relays object end in `80 f6`: relays `[]`, metadata `null`
+example : ((encRegistration exDefaultRelays).map fun i => (encode i).drop ((encode i).length - 2)) = some [0x80, 0xf6] := by
   decide +kernel
--- and the tenth item of the third
+-- the tenth item of the `id` witness
 example : (match encRegistration exWithId with | some (.array xs) => xs.length == 11 | _ => false) = true := by decide +kernel
 
 /-! ## the retirement certificate -/
@@ -171,7 +192,7 @@ end Pyc.C02.Pool
 #print axioms Pyc.C02.Pool.relay_from_bytes_conforms
 #print axioms Pyc.C02.Pool.registration_conforms_partial
 #print axioms Pyc.C02.Pool.registration_content_defined
-#print axioms Pyc.C02.Pool.registration_conforms_counterexample
+#print axioms Pyc.C02.Pool.registration_default_relays_conforms
 #print axioms Pyc.C02.Pool.registration_conforms_counterexample_dns
 #print axioms Pyc.C02.Pool.registration_conforms_counterexample_id
 #print axioms Pyc.C02.Pool.retirement_conforms
